@@ -130,12 +130,12 @@ def main():
             p = sh("cd %s && patch -p1 < %s" % (tmp, os.path.join(d, "patch.diff")))
             if p.returncode != 0:
                 print("patch does not apply: %s" % p.stdout[-300:]); sys.exit(2)
-            ids = list(meta["results"].keys())
+            ids = [x for x in a[2:] if re.match(r"C\d\d$", x)] or list(meta["results"].keys())
             res = run_checks(tmp, ids, tier, seed)
             print(json.dumps({i: r["exit"] for i, r in res.items()}))
             if "--update" in a:
-                meta["results"] = res
-                meta["detected_by"] = [i for i, r in res.items() if r["exit"] == 1]
+                meta["results"].update(res)
+                meta["detected_by"] = [i for i, r in meta["results"].items() if r["exit"] == 1]
                 json.dump(meta, open(os.path.join(d, "meta.json"), "w"), indent=1)
         finally:
             shutil.rmtree(tmp, ignore_errors=True)
